@@ -14,6 +14,7 @@ Record obs_inspection := {
 }.
 
 Record icase := {
+  k_names : list named;                        (* names / emails of the session's groups, labels, users, topics *)
   k_flows : list flow;
   k_inspections : list (N * obs_inspection);   (* per f_id *)
   k_trace : list ostep;                        (* all steps of all runs, in order of creation *)
@@ -181,7 +182,7 @@ Section Replay.
 End Replay.
 
 Definition engine_trace (k : icase) : list ostep :=
-  exec (k_flows k) (r_pick (k_flows k) (k_trace k)) (r_act (k_flows k) (k_trace k)) (r_touch (k_trace k))
+  exec (k_names k) (k_flows k) (r_pick (k_flows k) (k_trace k)) (r_act (k_flows k) (k_trace k)) (r_touch (k_trace k))
        (k_msg_trigger k) 400 (k_start k) (k_history k).
 
 Definition replay_ok (k : icase) : bool :=
@@ -192,7 +193,7 @@ Definition check (k : icase) : bool :=
   && forallb (waiting_ok (k_flows k)) (k_inspections k)
   && forallb (deps_ok (k_flows k)) (k_inspections k)
   && forallb valid_flow (k_flows k)
-  && accepts (k_flows k) (k_trace k)
+  && accepts (k_names k) (k_flows k) (k_trace k)
   && replay_ok k.
 
 (* which part differs (for debugging a mismatch): 1 results, 2 waiting exits, 3 dependencies, 4 validity, 5 trace not
@@ -202,7 +203,7 @@ Definition diagnose (k : icase) : list N :=
   ++ (if forallb (waiting_ok (k_flows k)) (k_inspections k) then [] else [2])
   ++ (if forallb (deps_ok (k_flows k)) (k_inspections k) then [] else [3])
   ++ (if forallb valid_flow (k_flows k) then [] else [4])
-  ++ (if accepts (k_flows k) (k_trace k) then [] else [5])
+  ++ (if accepts (k_names k) (k_flows k) (k_trace k) then [] else [5])
   ++ (if replay_ok k then [] else [6]).
 
 Fixpoint mismatches_from (i : N) (ks : list icase) : list N :=
